@@ -94,7 +94,43 @@ type Replay struct {
 	Note     string    `json:"note,omitempty"`
 }
 
-func safeExec(p *Prop, c Case) (out []string) {
+// hangDir is where a case on which the implementation does not return is recorded (set by Main).
+var hangDir string
+
+// safeExec runs one case with a watchdog: code under test that never returns (a deadlock, a wedged
+// routine) must be REPORTED with the case as the failing input, not make the check hang.
+func safeExec(p *Prop, c Case) []string {
+	limit := 900 * time.Second
+	if v := os.Getenv("VERIF_CASE_TIMEOUT"); v != "" {
+		if d, err := time.ParseDuration(v); err == nil {
+			limit = d
+		}
+	}
+	done := make(chan []string, 1)
+	go func() { done <- safeExec1(p, c) }()
+	select {
+	case out := <-done:
+		return out
+	case <-time.After(limit):
+		dir := hangDir
+		if dir == "" {
+			dir = os.TempDir()
+		}
+		_ = os.MkdirAll(dir, 0o755)
+		h := sha256.Sum256([]byte(strings.Join(c.Ops, "\n")))
+		path := filepath.Join(dir, fmt.Sprintf("%s-hang-%s.json", p.ID, hex.EncodeToString(h[:8])))
+		cc := c
+		b, _ := json.MarshalIndent(Replay{Property: p.ID, Kind: "oracle", Case: &cc,
+			What:     fmt.Sprintf("the implementation did not return from this case within %s (deadlock or wedged routine)", limit),
+			Findings: []Finding{{Fingerprint: "harness.case-does-not-return", Desc: "the code under test hangs on this input"}}}, "", " ")
+		_ = os.WriteFile(path, b, 0o644)
+		fmt.Printf("VIOLATION property=%s replay=%s\n", p.ID, path)
+		os.Exit(3)
+		return nil
+	}
+}
+
+func safeExec1(p *Prop, c Case) (out []string) {
 	defer func() {
 		if r := recover(); r != nil {
 			msg := strings.ReplaceAll(fmt.Sprint(r), "\n", " ")
@@ -246,6 +282,7 @@ func Main(p Prop) {
 	corpus := flag.String("corpus", "", "corpus dir")
 	outDir := flag.String("replays", "/verif/replays", "where replay files go")
 	flag.Parse()
+	hangDir = *outDir
 	start := time.Now()
 	if p.Parallel == 0 {
 		p.Parallel = 8
